@@ -34,7 +34,7 @@ FOREIGN = ["a", None, 1j, (1, 2), "1"]
 
 SET_OPS = ["add", "add", "discard", "remove", "pop", "clear", "in", "len", "probe"]
 MAP_OPS = ["store", "store", "delete", "pop", "popitem", "setdefault", "update", "get", "in", "items", "lookup",
-           "probe", "clear"]
+           "probe", "clear", "bad_store"]
 
 
 def gen_case(rng, tier, index):
@@ -237,6 +237,21 @@ def run_case(case, res):
                 if g != ("ok", "dflt"):
                     raise Violation("foreign-probe", f"m.get({f!r}) -> {g}, expected default", {})
             res.count("foreign_probes")
+        elif op == "bad_store":
+            # stores under keys the map refuses (NaN, foreign types) through every storing method: whatever is raised, the
+            # map must stay what it was (the state comparison below would see a smuggled-in key)
+            badk = [float("nan"), "a", None, (1, 2)][aux % 4]
+            how = aux % 3
+            desc = f"store attempt with invalid key {badk!r} via {['m[k]=v', 'setdefault', 'update'][how]}"
+            if how == 0:
+                g = _g(desc, lambda: s.__setitem__(badk, "x"))
+            elif how == 1:
+                g = _g(desc, lambda: s.setdefault(badk, "x"))
+            else:
+                g = _g(desc, lambda: s.update([(badk, "x")]))
+            if g[0] == "ok":
+                raise Violation("invalid-key-accepted", f"{desc} returned normally ({g[1]!r}); content {list(s)!r}", {})
+            res.count("invalid_store_attempts")
         elif op == "store":
             val = f"s{step}"
             g = _g(desc, lambda: s.__setitem__(k, val))
